@@ -42,6 +42,7 @@ type WorkerResult struct {
 	Keys          []uint64       `json:"keys"`
 	KeysSaturated bool           `json:"keys_saturated"`
 	States        []uint64       `json:"states"`
+	Scheds        []uint64       `json:"scheds"`
 	Faults        map[string]int `json:"faults"`
 	Probes        map[string]int `json:"probes"`
 	SimTimeS      float64        `json:"sim_time_s"`
@@ -222,6 +223,7 @@ func WorkerMain(t *testing.T) {
 	res := &WorkerResult{Prop: prop, Seed: seed, Worker: worker, Faults: map[string]int{}, Probes: map[string]int{}, OtherProps: map[string]int{}, Known: map[string]int{}}
 	keys := map[uint64]struct{}{}
 	states := map[uint64]struct{}{}
+	scheds := map[uint64]struct{}{}
 	start := time.Now()
 	deadline := start.Add(time.Duration(seconds) * time.Second)
 	for n := 0; ; n++ {
@@ -254,6 +256,9 @@ func WorkerMain(t *testing.T) {
 				res.KeysSaturated = true
 			}
 		}
+		if o.Sched != 0 && len(scheds) < maxKeys {
+			scheds[o.Sched] = struct{}{}
+		}
 		for _, s := range o.States {
 			if len(states) < maxKeys {
 				states[s] = struct{}{}
@@ -272,6 +277,9 @@ func WorkerMain(t *testing.T) {
 	}
 	for k := range states {
 		res.States = append(res.States, k)
+	}
+	for k := range scheds {
+		res.Scheds = append(res.Scheds, k)
 	}
 	res.WallS = time.Since(start).Seconds()
 	writeJSON(out, res)
